@@ -330,6 +330,7 @@ func runC18(c *Ctx) {
 	if n == 0 {
 		c.ok("ISO-CONC", "-", "go/unsafe/atomic", token.NoPos, "none in 8 packages", "")
 	}
+	c.poolRule()
 }
 
 func errorIface() *types.Interface {
